@@ -1,23 +1,28 @@
 """C11 — merging images by offset: pewlib.process.register.overlap_arrays / overlap_structured_arrays
-against PewModel/Overlap.lean (mechanism `mech`, specification `spec`).
+against PewModel/Overlap.lean.
 
-Three legs per case:
-* the implementation against the Lean specification and the Lean mechanism (driver ops c11.overlap / c11.structuredD);
-  structured cases carry a dtype per field (float64 by default; float32 / int64 and the same name with two dtypes in a
-  part of the cases): the model returns the exception class or the cast pixels (`overlapStructuredD`);
-  value classes (whole images of 0 / -0.0 / one constant / the fill value, zeros with NaNs, values that cancel, the
-  negative of an earlier image on the same footprint, values needing more than 24 mantissa bits), geometry classes
-  (stack of frames on one footprint, abutting tiles of a mosaic with and without gaps, images nested in one another,
-  larger images, longer lists), the same ndarray object at several places of the list, and a second call on the same
-  objects are generated beside the uniformly random images;
-* "inputs are left unmodified": a snapshot of every input array (and of the buffer a non-contiguous view lives in, and of
-  the offsets container) taken before the call and compared after it; inputs are C-contiguous, read-only, strided views
-  into a larger buffer, Fortran-ordered or reversed views.  This clause is backed by the snapshot only (no theorem: the
-  Lean model is functional);
-* a metamorphic leg, implementation against implementation (case key "meta"; every case of <= 4 inputs in the thorough
-  tier, a quarter of them in the quick tier): the same call with a common translation added to every offset
-  (theorem overlap_translation_invariant), with every permutation of the (array, offset) pairs for mean / sum (theorem
-  overlap_perm_invariant), and for replace the last-writer relation of theorem overlap_replace_last_writer."""
+Legs per case:
+* the implementation against the Lean specification and the Lean mechanism.  Plain cases: driver op c11.overlapD, the
+  dtype-aware model `overlapD` over extended values (NaN, +inf, -inf, exact finite numbers): every image carries a dtype
+  (float64 by default; float32, integer dtypes of several widths, bool, in any order in one list), the canvas has the
+  dtype of the first image and casts every write; a pixel is judged where the hypothesis of theorem pixel_specD holds
+  (`hyp`) and the demanded value is representable in the canvas dtype, the other pixels are compared with the model and a
+  difference is recorded only.  Structured cases: op c11.structuredD (a dtype per field; exception class or cast pixels);
+* "inputs are left unmodified": a byte-level picture of EVERY argument object (the container of the images — list or
+  tuple, with the identity of its elements —, every image and the buffer a view lives in, the offsets object — list /
+  tuple of tuples, lists, 1-d arrays, NumPy scalars, or ONE 2-d integer table of several dtypes and layouts —, the fill
+  and mode objects) taken before each call and compared after it, whether it returns or raises; results handed out
+  earlier are compared after later calls; writing into a result must not reach an input.  Backed by the pictures only
+  (the Lean model is functional);
+* histories: a second call on the same objects; the caller edits pixel (field) values in place between calls and merges
+  again with another mode / fill (each call judged against the Lean specification of the values of that moment); the
+  result of a merge (fill NaN) handed in as the first image of a second merge with further images (theorem tiling);
+* translation and reordering (case key "meta"; every case of <= 4 inputs in the thorough tier, a quarter of them in the
+  quick tier): plain — the translated call and every permutation that keeps the first image's dtype (mean / sum)
+  against the Lean specification of the ORIGINAL call (theorems overlapD_translation_invariant, overlapD_perm_invariant),
+  replace: the last-writer relation of theorem overlap_replace_last_writer; structured — the translated call and EVERY
+  order of the inputs, each judged per field against the Lean specification of that call (theorems
+  structured_translation_invariant / structured_perm_invariant say these specifications agree)."""
 import itertools
 import math
 import sys
@@ -32,6 +37,15 @@ from harness.core import Prop, outcome, orat, unrat
 # whether "the same field name with two dtypes" is treated as inside the property's quantifier (then the ValueError is a
 # violation of "does the same per field over the union of the inputs' field names"); the maintainer decides, see notes/D12.md
 DTYPE_CLASH_IN_SCOPE = False
+
+# Two places where pewlib leaves the letter of "each pixel holds the mean / sum of the non-NaN values" (notes/EC11.md); the
+# maintainer decides whether they are inside the property.  False: such a pixel is compared with the model and a difference is
+# recorded only.  True: the pixel is judged against the specification (the check then reports pewlib as it is).
+#  * +inf and -inf contributed to one pixel (IEEE sum NaN; pewlib: depends on the order, theorem inf_cancel_order_dependent)
+INF_CANCEL_IN_SCOPE = False
+#  * sum mode on an integer / boolean first image with fractional (negative) later values: the canvas truncates after every
+#    image, so 0.5 + 0.5 gives 0 although the sum 1 is representable
+LOSSY_INT_SUM_IN_SCOPE = False
 
 
 def fhex(v) -> str:
@@ -54,7 +68,7 @@ def val(x):
     return None if x is None else float(Fraction(x[0], x[1]))
 
 
-LAYOUTS = ["c", "ro", "strided", "f", "rev"]
+LAYOUTS = ["c", "ro", "strided", "f", "rev", "swapped"]
 NPDT = {"f8": np.float64, "f4": np.float32, "i8": np.int64}
 
 
@@ -76,21 +90,104 @@ def lay_out(arr, layout):
     if layout == "rev":  # a view with a negative stride on the first axis
         base = arr[::-1].copy()
         return base[::-1], base
+    if layout == "swapped" and arr.dtype.names is None and arr.dtype.itemsize > 1:  # the other byte order (plain images)
+        arr = arr.astype(arr.dtype.newbyteorder())
+        return arr, arr
     return arr, arr
 
 
 def fval(v, negzero=False):
-    """abstract value (None | integer number of quarters) -> float; `negzero`: zeros carry the sign bit"""
+    """abstract value (None = NaN | integer number of quarters | "inf" | "-inf") -> float; `negzero`: zeros carry the
+    sign bit"""
     if v is None:
         return math.nan
+    if v == "inf":
+        return math.inf
+    if v == "-inf":
+        return -math.inf
     if v == 0 and negzero:
         return -0.0
     return v / 4
 
 
-def to_np(a, ndim):
-    arr = np.array([fval(v, a.get("negzero", False)) for v in a["data"]], dtype=np.float64)
-    return arr.reshape(a["shape"])
+def isnum(v):
+    """a finite abstract value"""
+    return v is not None and not isinstance(v, str)
+
+
+# dtypes of plain images: the concrete NumPy dtype, and the class the Lean model knows (all integer dtypes are one class:
+# they are used only where every value and partial sum lies in their range)
+PLAIN_DT = {"f8": np.float64, "f4": np.float32, "i8": np.int64, "i4": np.int32, "i2": np.int16, "u1": np.uint8,
+            "u2": np.uint16, "b1": np.bool_}
+
+
+def dclass(dt):
+    return dt if dt in ("f8", "f4", "b1") else "i8"
+
+
+def fits_dtype(a):
+    """every value of the image description is exactly representable in its dtype"""
+    dt = a.get("dtype", "f8")
+    for v in a["data"]:
+        if dt == "f8":
+            ok = not isnum(v) or abs(v) < 2 ** 55
+        elif dt == "f4":
+            ok = not isnum(v) or abs(v) < 2 ** 24
+        elif dt == "b1":
+            ok = v in (0, 4)
+        else:
+            info = np.iinfo(PLAIN_DT[dt])
+            ok = isnum(v) and v % 4 == 0 and info.min <= v // 4 <= info.max
+        if not ok:
+            return False
+    return True
+
+
+def to_np(a, ndim=None):
+    arr = np.array([fval(v, a.get("negzero", False)) for v in a["data"]], dtype=np.float64).reshape(a["shape"])
+    dt = a.get("dtype", "f8")
+    return arr if dt == "f8" else arr.astype(PLAIN_DT[dt])  # exact: fits_dtype is checked before
+
+
+def plain_inexact(descs, fillq):
+    """None, or why float / integer arithmetic on this case need not be exact (the case is then not judged): a value not
+    representable in its image's dtype; sums beyond the mantissa of the canvas; an integer canvas whose range the partial
+    sums (or a negative value, if it is unsigned) could leave"""
+    if not all(fits_dtype(a) for a in descs):
+        return "value not representable in the dtype of its image"
+    vals = [v for a in descs for v in a["data"] if isnum(v)]
+    tot = sum(abs(v) for v in vals) + (abs(fillq) if isnum(fillq) else 0)
+    if tot >= 2 ** 53:
+        return "sums not exact"
+    dt0 = descs[0].get("dtype", "f8")
+    if dt0 == "f4" and tot >= 2 ** 24:
+        return "sums not exact in a float32 canvas"
+    if dclass(dt0) == "i8":
+        info = np.iinfo(PLAIN_DT[dt0])
+        if tot // 4 + 1 > info.max:
+            return "sums could leave the range of the integer canvas"
+        if info.min == 0 and (any(v < 0 for v in vals) or (isnum(fillq) and fillq < 0)):
+            return "negative value into an unsigned canvas"
+    return None
+
+
+def enc_v(v):
+    """abstract value -> driver value"""
+    return v if (v is None or isinstance(v, str)) else core.rat(Fraction(v, 4))
+
+
+def ptok(j, rdt):
+    """driver pixel (null | "inf" | "-inf" | "undef" | rational) -> canonical token as an array of dtype rdt holds it"""
+    if j is None:
+        return "nan"
+    if isinstance(j, str):
+        return j
+    q = unrat(j)
+    if rdt == "f4":
+        return fhex(float(np.float32(float(q))))
+    if rdt == "f2":
+        return fhex(float(np.float16(float(q))))
+    return fhex(float(q))
 
 
 # value classes of one image (or of one field of a structured image)
@@ -130,19 +227,156 @@ def exact_ok(values, n_bits=53):
     return sum(abs(v) for v in values if v is not None) < 2 ** n_bits
 
 
+OFFS_KINDS = ["tuple", "list", "ndarray", "ndarray-ro", "ndarray-i32", "np-scalars", "tuple-of-tuples", "tuple-of-lists",
+              "array2d", "array2d-i32", "array2d-i16", "array2d-u8", "array2d-ro", "array2d-f", "array2d-view"]
+OFFS_DT = {"ndarray-i32": np.int32, "array2d-i32": np.int32, "array2d-i16": np.int16, "array2d-u8": np.uint8}
+
+
+def offs_fit(arrs, dtype):
+    """the offsets, their spread and the far corners of the images all lie in the range of the integer dtype (no
+    wrap-around in `offset - min_offset`, whatever the code computes in that dtype)"""
+    info = np.iinfo(dtype)
+    for k in range(len(arrs[0]["off"])):
+        lo = min(a["off"][k] for a in arrs)
+        hi = max(a["off"][k] + a["shape"][k] for a in arrs)
+        if lo < info.min or hi > info.max or hi - lo > info.max:
+            return False
+    return True
+
+
 def make_offsets(case):
-    """the offsets container pewlib receives: tuples (default), lists, int64 arrays, read-only int64 arrays"""
+    """(the offsets object pewlib receives, the kind really used).  Kinds: a list of tuples (default) / of lists / of 1-d
+    int64 (read-only, int32) arrays / of tuples of NumPy scalars, a tuple of tuples / of lists, ONE 2-d integer ndarray
+    (int64, int32, int16, uint8; read-only; Fortran order; a view of every second row of a larger table).  A narrow
+    dtype is used only when the offsets fit it (otherwise int64), arrays only when they fit int64 (otherwise tuples of
+    Python integers)."""
     kind = case.get("offs_kind", "tuple")
-    offs = [a["off"] for a in case["arrays"]]
+    arrs = case["arrays"]
+    offs = [a["off"] for a in arrs]
+    if kind not in OFFS_KINDS:
+        kind = "tuple"
+    if kind in OFFS_DT and not offs_fit(arrs, OFFS_DT[kind]):
+        kind = "ndarray" if kind.startswith("ndarray") else "array2d"
+    if kind not in ("tuple", "list", "tuple-of-tuples", "tuple-of-lists") and not offs_fit(arrs, np.int64):
+        kind = "tuple"
     if kind == "list":
-        return [list(o) for o in offs]
-    if kind in ("ndarray", "ndarray-ro"):
-        out = [np.array(o, dtype=np.int64) for o in offs]
+        return [list(o) for o in offs], kind
+    if kind == "tuple-of-tuples":
+        return tuple(tuple(o) for o in offs), kind
+    if kind == "tuple-of-lists":
+        return tuple(list(o) for o in offs), kind
+    if kind == "np-scalars":
+        return [tuple(np.int64(v) for v in o) for o in offs], kind
+    if kind.startswith("ndarray"):
+        out = [np.array(o, dtype=OFFS_DT.get(kind, np.int64)) for o in offs]
         if kind == "ndarray-ro":
             for o in out:
                 o.flags.writeable = False
-        return out
-    return [tuple(o) for o in offs]
+        return out, kind
+    if kind.startswith("array2d"):
+        table = np.array(offs, dtype=OFFS_DT.get(kind, np.int64)).reshape(len(offs), len(offs[0]))
+        if kind == "array2d-ro":
+            table.flags.writeable = False
+        elif kind == "array2d-f":
+            table = np.asfortranarray(table)
+        elif kind == "array2d-view":  # every second row of a larger table (sentinel rows between)
+            big = np.full((2 * len(offs), len(offs[0])), 0x5A5A5A, dtype=np.int64)
+            big[::2] = table
+            table = big[::2]
+        return table, kind
+    return [tuple(o) for o in offs], "tuple"
+
+
+def snap(x):
+    """byte-level picture of one argument object: arrays with dtype, shape, strides, bytes, flags and the bytes of the
+    buffer they are a view of; sequences with their type and the pictures of their elements"""
+    if isinstance(x, np.ndarray):
+        base = x
+        while isinstance(base.base, np.ndarray):
+            base = base.base
+        return ("ndarray", x.dtype.str, x.shape, x.strides, x.tobytes(), bool(x.flags.writeable),
+                None if base is x else (base.shape, base.tobytes()))
+    if isinstance(x, (list, tuple)):
+        return (type(x).__name__, [snap(v) for v in x])
+    if isinstance(x, np.generic):
+        return ("scalar", x.dtype.str, x.tobytes())
+    return (type(x).__name__, repr(x))
+
+
+def scribble(arr):
+    """the caller writes into a result: every element gets another value (any dtype, any memory layout)"""
+    if arr.dtype.names:
+        for n in arr.dtype.names:
+            scribble(arr[n])
+    elif arr.dtype.kind == "b":
+        arr[...] = ~arr
+    elif arr.dtype.kind in "iu":
+        arr[...] = arr ^ 0x55
+    else:
+        arr[...] = np.where(np.isnan(arr), 1.5, np.nan)
+
+
+class Args:
+    """the argument objects of one merge: the container of the images (list or tuple), the offsets object, fill and mode,
+    and a picture of every one of them from before the first call.  `unchanged()` compares after a call, returning or
+    raising: the same container types and lengths, the SAME image objects at the same places, every byte as before."""
+
+    def __init__(self, pairs, offsets, fill, mode, arrs_kind="list"):
+        self.pairs = pairs
+        views = [p[0] for p in pairs]
+        self.arrays = tuple(views) if arrs_kind == "tuple" else list(views)
+        self.offsets, self.fill, self.mode = offsets, fill, mode
+        self.ids = [id(v) for v in views]
+        self.before = self.picture()
+
+    def picture(self):
+        return (snap(self.arrays), [b.tobytes() for _, b in self.pairs], snap(self.offsets), snap(self.fill), snap(self.mode))
+
+    def unchanged(self):
+        return (len(self.arrays) == len(self.ids) and all(id(a) == i for a, i in zip(self.arrays, self.ids))
+                and self.picture() == self.before)
+
+    def shared(self):
+        return len(set(self.ids)) < len(self.ids)
+
+
+ARG_DEFAULTS = {"offsets": "tuple", "arrays": "list", "fill": "float", "mode": "str"}
+
+
+def args_feats(args):
+    return {"args:" + k + "=" + v for k, v in args.kinds.items() if ARG_DEFAULTS[k] != v}
+
+
+FILL_KINDS = ["float", "int", "np64", "np32", "arr0d"]
+
+
+def make_fill(case):
+    """(the fill object pewlib receives, kind really used): a Python float (default), a Python int, a NumPy float64 /
+    float32 scalar or a 0-d array, whenever the kind holds the fill value exactly"""
+    q, kind = case["fill"], case.get("fill_kind", "float")
+    v = fill_value(q)
+    if kind == "int" and isinstance(q, int) and q % 4 == 0:
+        return q // 4, kind
+    if kind == "np64":
+        return np.float64(v), kind
+    if kind == "np32" and (not isinstance(q, int) or float(np.float32(v)) == v):
+        return np.float32(v), kind
+    if kind == "arr0d":
+        return np.array(v, dtype=np.float64), kind
+    return v, "float"
+
+
+def fill_value(q):
+    """abstract fill (None = NaN | quarters | "inf" | "-inf" | "-0") -> float"""
+    if q is None:
+        return math.nan
+    if q == "inf":
+        return math.inf
+    if q == "-inf":
+        return -math.inf
+    if q == "-0":
+        return -0.0
+    return q / 4
 
 
 def exc_class(e):
@@ -272,34 +506,58 @@ class C11(Prop):
     anchored = ["src/pewlib/process/register.py"]
     cases = {"quick": 600, "thorough": 12000}
     rule = ("random lists of 1..6 arrays (1-3 D, sides 1..4, offsets -5..5, dyadic values k/4, NaNs incl. whole arrays), "
-            "fills NaN/0/finite, three modes, plain and structured; in 40 % of the cases every image (field) is drawn from the "
-            "value classes all 0 / all -0.0 / one constant / the fill value / zeros with NaNs / values that cancel / the "
+            "fills NaN/0/finite (3 %: -0.0), three modes, plain and structured; in 40 % of the cases every image (field) is drawn "
+            "from the value classes all 0 / all -0.0 / one constant / the fill value / zeros with NaNs / values that cancel / the "
             "negative of an earlier image on its footprint / its complement to the fill / values of more than 24 mantissa "
             "bits; geometry classes in 40 % of the cases: stack of frames on one footprint, abutting tiles with and without "
-            "gaps, images nested in one, images with sides up to 65 (1-D up to 4097, pixel counts around the powers of two), "
-            "lists of 7..40 images; the same ndarray object at two or three places of the list (12 %); a second call on the "
-            "same objects (30 %); inputs C-contiguous, read-only, strided views, Fortran "
-            "order, reversed views; offsets as tuples / lists / int64 arrays; structured: float64 fields, and in a fifth of "
-            "the cases float32 / int64 fields, in a tenth the same name with two dtypes; metamorphic leg (translation, all "
-            "permutations of <= 4 inputs for mean/sum, last writer for replace) on every case of <= 4 inputs in the "
-            "thorough tier and a quarter of them in the quick tier; non-trivial = some pixel receives >=2 contributions, "
-            "or a NaN-only covered pixel, or an uncovered pixel, or a pixel whose contributions are all zero / cancel / give "
-            "the fill value, or two abutting images; distinct by canonical case hash")
+            "gaps, images nested in one, images with sides up to 65 (1-D up to 4097, pixel counts around the powers of two; "
+            "plain: a few with more than 2^16 pixels), lists of 7..40 images and (1.5 %) 300..600 images on one footprint; "
+            "plain cases: 30 % with image dtypes (first image float64 / float32 / int64 / int32 / uint16 / uint8 / bool, the "
+            "others any of these plus int16, half of them with whole numbers in the float images), 10 % with +inf / -inf in the "
+            "float images (one sign, or both), 5 % with a zero-length axis, 15 % with a history (1-3 further calls after in-place "
+            "edits of 1-4 pixels, other mode / fill in a third), 10 % of the rest with the result fed into a second merge, 4 % of the "
+            "free placements in 4 or 5 dimensions (recorded only); the same ndarray object at two or three places of the list "
+            "(12 %); a second call on the same objects (30 %); memory layouts C, read-only, strided view, Fortran order, "
+            "reversed view, other byte order; argument types: the offsets object is something other than a list of tuples in "
+            "half of the cases (15 kinds: lists, tuples, 1-d arrays int64 / int32 / read-only, NumPy scalars, one 2-d table "
+            "int64 / int32 / int16 / uint8 / read-only / Fortran / strided view), the images in a tuple (20 %), the fill as int / "
+            "float64 / float32 / 0-d array (30 %), the mode as np.str_ (10 %); common translations to +-1000 and around "
+            "+-2^53..2^57, +-2^63, 2^64, 2^70 (beyond int64: recorded only); structured: float64 fields, in a fifth of the "
+            "cases float32 / int64 fields, in a tenth the same name with two dtypes, 12 % with a history of in-place field edits; "
+            "translation / reordering legs on every case of <= 4 inputs in the thorough tier and a quarter of them in the quick "
+            "tier; non-trivial = some pixel receives >=2 contributions, or a NaN-only covered pixel, or an uncovered pixel, or a "
+            "pixel whose contributions are all zero / cancel / give the fill value, or two abutting images; distinct by canonical "
+            "case hash")
     trusted = ["np.nansum/np.full/boolean-mask assignment as documented; float sums of the generated dyadic values are exact "
-               "(evaluate checks that the absolute values of a case sum to less than 2^53 quarters, 2^24 where a float32 field "
-               "is involved, and counts the case as undetermined otherwise), "
-               "the mean's single division is correctly rounded (compared with float(Fraction)); float32 fields: the division is "
-               "done in float64 and rounded once more to float32 (canonicaliser: float32(float64(q)))",
-               "'inputs are left unmodified' is backed by the harness snapshot only (bytes of every input and of the buffer "
-               "behind a view before and after the call); the Lean model is functional and has no theorem about it"]
+               "(evaluate checks for every call of a history that the absolute values sum to less than 2^53 quarters, 2^24 "
+               "where a float32 image, canvas or field is involved, that every value is representable in the dtype of its image "
+               "and that no partial sum can leave the range of an integer canvas; the case is undetermined otherwise), "
+               "the mean's single division is correctly rounded (compared with float(Fraction)); float32 canvases / fields: the "
+               "division is done in float64 and rounded once more to float32 (canonicaliser: float32(float64(q)), following the "
+               "floating-point dtype the implementation returned)",
+               "all integer dtypes are one class in the Lean model (i8): a narrower or unsigned dtype is used only where every "
+               "value and partial sum lies in its range, where NumPy's casts agree with int64's",
+               "'inputs are left unmodified' is backed by the harness pictures only (bytes, dtype, shape, strides, flags of every "
+               "argument object and of the buffer behind a view, identity of the list elements, before and after each call); the "
+               "Lean model is functional and has no theorem about it"]
     assumptions = ["structured inputs in which one field name carries two dtypes make overlap_structured_arrays raise ValueError "
                    "(np.empty on a dtype with a repeated name); the property text does not speak of dtypes, such a case is "
                    "compared with the model's error result and counted as hypothesis-excluded for the specification "
                    "(DTYPE_CLASH_IN_SCOPE = False; see notes/D12.md)",
-                   "integer fields: a NaN cast to int64 is platform dependent (NumPy warns); such pixels are marked undefined by "
-                   "the model and not compared; integer canvases raise in mean mode and with a NaN fill in mean/sum mode "
-                   "(model: TypeError / ValueError): which exception is raised is an accident of the NumPy calls used, such a "
-                   "case is counted as undetermined and not compared"]
+                   "integer fields / canvases: NaN or an infinity cast to an integer is platform dependent (NumPy warns); such "
+                   "pixels are marked undefined by the model and not compared (a plain case with an integer first image and an "
+                   "infinite value is not judged at all); integer canvases raise in mean mode and with a NaN / infinite fill in "
+                   "mean/sum mode, boolean canvases in mean mode (model: TypeError / ValueError / OverflowError): which exception "
+                   "is raised, and whether any, is an accident of the NumPy calls used, such a case is undetermined and not compared",
+                   "recorded only (compared with the model, a difference sets a feature, never a verdict): pixels where +inf and "
+                   "-inf meet in mean / sum mode (INF_CANCEL_IN_SCOPE = False: pewlib's result depends on the order there, theorem "
+                   "inf_cancel_order_dependent); sum mode on an integer / boolean canvas with a non-integer / negative contribution "
+                   "(LOSSY_INT_SUM_IN_SCOPE = False: the canvas truncates after every image); pixels whose demanded value the canvas "
+                   "dtype cannot hold (2.5 or NaN in an integer canvas); more than 3 dimensions, offsets beyond int64, an image "
+                   "without pixels whose offset changes the bounding box, an infinite fill (outside the quantifier or a choice the "
+                   "text leaves open)",
+                   "a result that shares memory with an input, or an input list whose element has been replaced by an equal copy, "
+                   "counts as a modified input (the caller's next write / read goes elsewhere)"]
 
     def gen_array(self, rng, ndim, allnan=False, place=None, vclass="rand", fill=None, prev=None):
         off, shape = place if place else ([rng.randint(-5, 5) for _ in range(ndim)], [rng.randint(1, 4) for _ in range(ndim)])
@@ -347,6 +605,8 @@ class C11(Prop):
                 else:
                     shape = [rng.choice([rng.randint(5, 40), rng.randint(1, 40), rng.choice([8, 16, 32, 64]) + rng.randint(-1, 1)])
                              for _ in range(ndim)]
+                    if rng.random() < 0.06 and not getattr(self, "_structured", False):  # more than 2^16 pixels (plain images)
+                        shape = [rng.randint(257, 300) for _ in range(ndim)]
                 out.append(([rng.randint(-20, 20) for _ in range(ndim)], shape))
             return out
         return [(roff(), rshape()) for _ in range(n)]
@@ -357,6 +617,7 @@ class C11(Prop):
         mode = rng.choice(["replace", "mean", "sum"])
         fill = rng.choice([None, None, 0, 40, -7, 1])  # quarters: 10.0, -1.75, 0.25
         structured = rng.random() < 0.25
+        self._structured = structured
         r = rng.random()
         geom = ("free" if r < 0.60 else "stack" if r < 0.68 else "tiles" if r < 0.80 else "nested" if r < 0.86
                 else "big" if r < 0.95 else "long")
@@ -364,8 +625,14 @@ class C11(Prop):
             ndim, n = rng.choice([1, 2, 2]), min(n, 3)
         if geom == "long" or (geom == "stack" and rng.random() < 0.3):  # lists longer than a handful
             ndim, n = min(ndim, 2), rng.randint(7, 40)
+            if rng.random() < 0.3:  # several hundred images on one footprint (visit counters, chunked loops)
+                ndim, n, geom = 1, rng.randint(300, 600), "stack"
+        if geom == "free" and not structured and rng.random() < 0.04:  # more dimensions than the property names
+            ndim, n = rng.choice([4, 5]), min(n, 3)
         special = rng.random() < 0.4  # images drawn from the value classes
         places = self.places(rng, geom, ndim, n)
+        if ndim > 3:  # keep the box of a 4-d / 5-d case small
+            places = [([rng.randint(-1, 1) for _ in range(ndim)], [rng.randint(1, 2) for _ in range(ndim)]) for _ in range(n)]
         case = {"kind": "structured" if structured else "plain", "ndim": ndim, "mode": mode, "fill": fill}
         if structured:
             names = ["A", "B", "C"]
@@ -417,6 +684,25 @@ class C11(Prop):
                 a["fields"] = fs
                 arrs.append(a)
             case["arrays"] = arrs
+            if len(arrs) <= 40 and all(int(np.prod(a["shape"])) <= 1024 for a in arrs) and rng.random() < 0.12:
+                # the caller edits field values in place and merges again
+                then = []
+                for _ in range(rng.choice([1, 1, 2])):
+                    edits = []
+                    for _ in range(rng.randint(1, 3)):
+                        i = rng.randrange(len(arrs))
+                        f = rng.choice(arrs[i]["fields"])
+                        if not f["data"]:
+                            continue
+                        v = 4 * rng.randint(-5, 5) if f["dtype"] == "i8" else rng.choice([None, 0, rng.randint(-20, 20)])
+                        edits.append([i, f["name"], rng.randrange(len(f["data"])), v])
+                    st = {"edits": edits}
+                    if rng.random() < 0.3:
+                        st["mode"] = rng.choice(["replace", "mean", "sum"])
+                    if rng.random() < 0.3:
+                        st["fill"] = rng.choice([None, 0, 40, -7])
+                    then.append(st)
+                case["then"] = then
         else:
             arrs = []
             for place in places:
@@ -429,10 +715,12 @@ class C11(Prop):
             case["arrays"] = arrs
             if rng.random() < 0.25:  # a common translation, also large and beyond the exactly representable doubles
                 big = rng.random() < 0.4
-                t = [rng.choice([2 ** 53, -(2 ** 53), 2 ** 53 + 2, 3 - 2 ** 55, 2 ** 56 + 1, -(2 ** 57) + 5]) + rng.randint(-3, 3)
+                t = [rng.choice([2 ** 53, -(2 ** 53), 2 ** 53 + 2, 3 - 2 ** 55, 2 ** 56 + 1, -(2 ** 57) + 5, 2 ** 63 - 40, 20 - 2 ** 63,
+                                 2 ** 63 + 9, 2 ** 64 + 3, -(2 ** 70)]) + rng.randint(-3, 3)
                      if big else rng.randint(-1000, 1000) for _ in range(ndim)]
                 for a in case["arrays"]:
                     a["off"] = [o + d for o, d in zip(a["off"], t)]
+            self.plain_classes(rng, case)
         # memory layout of every input and the container of the offsets
         for a in case["arrays"]:
             if rng.random() < 0.35:
@@ -446,15 +734,111 @@ class C11(Prop):
                     dup["off"] = [o + rng.randint(-2, 2) for o in src["off"]]
                 case["arrays"].insert(rng.randint(0, len(case["arrays"])), dup)
             case["share_objects"] = True
+        # argument types: the offsets object (half of the cases: something other than a list of tuples, a third of those ONE
+        # 2-d table), the container of the images, the fill object, the mode string
+        if rng.random() < 0.5:
+            case["offs_kind"] = rng.choice(OFFS_KINDS[1:])
+        if rng.random() < 0.2:
+            case["arrs_kind"] = "tuple"
         if rng.random() < 0.3:
-            case["offs_kind"] = rng.choice(["list", "ndarray", "ndarray-ro"])
+            case["fill_kind"] = rng.choice(FILL_KINDS[1:])
+        if rng.random() < 0.1:
+            case["mode_kind"] = "npstr"
         # a second call on the same objects
         if rng.random() < 0.3:
             case["repeat"] = True
         # metamorphic leg
-        if len(case["arrays"]) <= 4 and (tier == "thorough" or rng.random() < 0.25):
+        if len(case["arrays"]) <= 4 and "then" not in case and (tier == "thorough" or rng.random() < 0.25):
             case["meta"] = {"t": [rng.choice([rng.randint(-9, 9), rng.randint(-10 ** 6, 10 ** 6)]) for _ in range(ndim)]}
         return case
+
+    FIRST_DT = ["f8", "f8", "f4", "f4", "i8", "i4", "u2", "u1", "b1"]
+
+    @staticmethod
+    def as_dtype(a, dt, rng, integers=False):
+        """the image description with its values made values of dtype `dt` (`integers`: whole numbers in float images too)"""
+        unsigned = dt in ("u1", "u2")
+
+        def conv(v):
+            if dt in ("f8", "f4"):
+                if dt == "f4" and isnum(v) and abs(v) >= 2 ** 20:  # float32 holds 24 bits
+                    v = v % 2 ** 20
+                return 4 * v if integers and isnum(v) else v
+            if not isnum(v):
+                v = rng.randint(0, 5)
+            if dt == "b1":
+                return 4 * (v % 2)
+            v = max(-100, min(100, v))
+            return 4 * (abs(v) if unsigned else v)
+        a["data"] = [conv(v) for v in a["data"]]
+        a.pop("negzero", None) if dt not in ("f8", "f4") else None
+        if dt != "f8":
+            a["dtype"] = dt
+        return a
+
+    def plain_classes(self, rng, case):
+        """classes of plain cases beside the float64 images: images of several dtypes in one list, infinite values,
+        zero-length axes, a signed zero as fill, histories of calls on the same objects, a result fed into a second merge"""
+        arrs, ndim = case["arrays"], case["ndim"]
+        small = len(arrs) <= 40 and all(len(a["data"]) <= 4096 for a in arrs)
+        if rng.random() < 0.3:  # dtypes: the first image decides the canvas
+            first = rng.choice(self.FIRST_DT)
+            integers = rng.random() < 0.5
+            unsigned = first in ("u1", "u2")
+            for i, a in enumerate(arrs):
+                dt = first if i == 0 else rng.choice(["f8", "f8", "f4", "i8", "i4", "i2", "u1", "u2", "b1", "b1"])
+                self.as_dtype(a, dt, rng, integers)
+                if unsigned:  # an unsigned canvas takes no negative value
+                    a["data"] = [abs(v) if isnum(v) else v for v in a["data"]]
+            if unsigned and isnum(case["fill"]):
+                case["fill"] = abs(case["fill"])
+            if integers and isnum(case["fill"]) and rng.random() < 0.7:
+                case["fill"] = 4 * case["fill"]
+        if rng.random() < 0.1:  # infinite pixel values in the floating-point images (one sign only in most cases)
+            signs = ["inf"] if rng.random() < 0.35 else ["-inf"] if rng.random() < 0.5 else ["inf", "-inf"]
+            p = 0.4 if len(signs) == 2 else rng.choice([0.1, 0.3])
+            for a in arrs:
+                if a.get("dtype", "f8") in ("f8", "f4"):
+                    a["data"] = [rng.choice(signs) if rng.random() < p else v for v in a["data"]]
+        if small and rng.random() < 0.05:  # an image with a zero-length axis (mostly beside others, inside their box)
+            a = rng.choice(arrs)
+            a["shape"][rng.randrange(ndim)] = 0
+            a["data"] = []
+            if len(arrs) > 1 and rng.random() < 0.7:
+                b = rng.choice([x for x in arrs if x is not a])
+                a["off"] = list(b["off"])
+        if rng.random() < 0.03:
+            case["fill"] = "-0"
+        if small and rng.random() < 0.15:  # the caller edits the images in place and merges again (one to three times)
+            then = []
+            for _ in range(rng.choice([1, 1, 2, 3])):
+                edits = []
+                for _ in range(rng.randint(1, 4)):
+                    i = rng.randrange(len(arrs))
+                    if not arrs[i]["data"]:
+                        continue
+                    k = rng.randrange(len(arrs[i]["data"]))
+                    dt = arrs[i].get("dtype", "f8")
+                    v = rng.choice([None, None, 0, rng.randint(-20, 20), rng.randint(-20, 20)])
+                    v = self.as_dtype({"data": [v]}, dt, rng)["data"][0]
+                    if dt in ("u1", "u2") or arrs[0].get("dtype") in ("u1", "u2"):
+                        v = abs(v) if isnum(v) else v
+                    edits.append([i, k, v])
+                st = {"edits": edits}
+                if rng.random() < 0.3:
+                    st["mode"] = rng.choice(["replace", "mean", "sum"])
+                if rng.random() < 0.3 and arrs[0].get("dtype") not in ("u1", "u2"):
+                    st["fill"] = rng.choice([None, 0, 40, -7])
+                if rng.random() < 0.2:
+                    st["repeat"] = True
+                then.append(st)
+            case["then"] = then
+        elif small and rng.random() < 0.1 and all(a.get("dtype", "f8") == "f8" for a in arrs):
+            # the result becomes the first image of a second merge with further images (tiling)
+            lo = [min(a["off"][k] for a in arrs) for k in range(ndim)]
+            case["feed"] = [self.gen_array(rng, ndim, place=([l + rng.randint(-2, 4) for l in lo],
+                                                             [rng.randint(1, 4) for _ in range(ndim)]))
+                            for _ in range(rng.choice([1, 1, 2]))]
 
     def many(self, n, mode, fill):
         """n one-pixel images on one pixel of a 1x2 base (visit counters of any width must not wrap)"""
@@ -483,6 +867,66 @@ class C11(Prop):
                 for la in LAYOUTS[1:]:
                     yield {"kind": "plain", "ndim": 2, "mode": mode, "fill": fill, "offs_kind": "ndarray-ro",
                            "arrays": [{**ones, "layout": la}, {**nanarr, "layout": la}]}
+        # every kind of offsets object / image container / fill object, on offsets whose per-axis minimum is not zero
+        fz8 = lambda nm, data: {"name": nm, "dtype": "f8", "data": data}
+        for i, kind in enumerate(OFFS_KINDS):
+            mode, fill = ("replace", "mean", "sum")[i % 3], (None, 0, 40)[(i // 3) % 3]
+            extra = {"offs_kind": kind, "arrs_kind": ("list", "tuple")[i % 2], "fill_kind": FILL_KINDS[i % len(FILL_KINDS)],
+                     "repeat": i % 2 == 0}
+            yield {"kind": "plain", "ndim": 2, "mode": mode, "fill": fill, **extra,
+                   "arrays": [{**ones, "off": [2, 3]}, {**nanarr, "off": [4, 1]}, {**twos, "off": [3, 3]}]}
+            yield {"kind": "plain", "ndim": 1, "mode": mode, "fill": fill, **extra,
+                   "arrays": [{"off": [-3], "shape": [2], "data": [4, None]}, {"off": [-2], "shape": [2], "data": [8, 12]}]}
+            yield {"kind": "structured", "ndim": 2, "mode": mode, "fill": fill, **extra, "arrays": [
+                {"off": [2, 3], "shape": [1, 2], "fields": [fz8("A", [4, 8]), fz8("B", [0, None])]},
+                {"off": [4, 1], "shape": [1, 2], "fields": [fz8("B", [12, 16])]}]}
+        # images of several dtypes in one list, in every order; the first decides the canvas.  A: float64 with NaNs and
+        # quarters, W: float64 whole numbers with a NaN, B: uint16, C: a boolean mask, D: float32 with a NaN, E: int32 on a
+        # different footprint
+        A = {"off": [0, 0], "shape": [2, 2], "data": [5, None, None, -6]}
+        W = {"off": [0, 0], "shape": [2, 2], "data": [8, None, 12, None]}
+        B = {"off": [0, 0], "shape": [2, 2], "data": [4, 8, 12, 0], "dtype": "u2"}
+        C = {"off": [0, 0], "shape": [2, 2], "data": [4, 0, 4, 0], "dtype": "b1"}
+        D = {"off": [0, 1], "shape": [2, 2], "data": [None, 2, 6, None], "dtype": "f4"}
+        E = {"off": [1, -1], "shape": [1, 3], "data": [-8, 4, 20], "dtype": "i4"}
+        lists = [list(p) for p in itertools.permutations([A, B, C])] + [list(p) for p in itertools.permutations([W, B, E])]
+        lists += [[D, B, A], [D, E, C, A], [A, D], [W, E], [B, W], [C, W], [E, B], [C, C], [B], [C], [D]]
+        for i, lst in enumerate(lists):
+            for mode in ("replace", "mean", "sum"):
+                for fill in (None, 0, 40):
+                    c = {"kind": "plain", "ndim": 2, "mode": mode, "fill": fill, "arrays": lst}
+                    if (i + len(mode)) % 4 == 0 and len(lst) > 1:
+                        c["meta"] = {"t": [3, -2]}
+                    yield c
+        # infinite values: one sign (the IEEE sum is that infinity), both signs on one pixel (IEEE sum NaN: recorded only)
+        inf1 = {"off": [0], "shape": [3], "data": ["inf", 4, None]}
+        inf2 = {"off": [1], "shape": [3], "data": [8, "inf", "-inf"]}
+        inf3 = {"off": [0], "shape": [4], "data": [4, "-inf", 12, 16]}
+        for mode in ("replace", "mean", "sum"):
+            for fill in (None, 0, 40):
+                pl = {"kind": "plain", "ndim": 1, "mode": mode, "fill": fill}
+                yield {**pl, "arrays": [inf1, {**inf2, "data": [8, "inf", 4]}], "meta": {"t": [5]}}
+                yield {**pl, "arrays": [inf3, {"off": [1], "shape": [1], "data": ["-inf"], "dtype": "f4"}, {"off": [1], "shape": [2], "data": [4, 8], "dtype": "i8"}]}
+                yield {**pl, "arrays": [inf1, inf2, inf3]}
+                yield {**pl, "arrays": [inf2, inf3, {"off": [2], "shape": [2], "data": [20, 20]}]}
+        # histories: the caller edits the images in place (values, NaN pattern) and merges again, with another mode / fill;
+        # the first result is fed into a second merge; an image with a zero-length axis; a signed zero as fill
+        h1 = {"off": [0, 0], "shape": [2, 2], "data": [4, 8, None, 16]}
+        h2 = {"off": [1, 1], "shape": [2, 2], "data": [None, 8, 8, 0]}
+        for mode in ("replace", "mean", "sum"):
+            for fill in (None, 0, 40):
+                pl = {"kind": "plain", "ndim": 2, "mode": mode, "fill": fill}
+                yield {**pl, "arrays": [h1, h2], "then": [{"edits": [[0, 3, None], [1, 0, 20]]},
+                                                         {"edits": [[0, 3, 4], [0, 0, None]], "mode": "sum", "fill": 0, "repeat": True},
+                                                         {"edits": [], "mode": "mean", "fill": None}]}
+                yield {**pl, "arrays": [h1, {**h2, "layout": "strided"}, {**h1, "off": [0, 1], "layout": "ro"}], "share_objects": True,
+                       "then": [{"edits": [[2, 1, -8], [1, 3, None]]}]}
+                yield {**pl, "arrays": [h1, h2], "feed": [{"off": [0, 2], "shape": [2, 2], "data": [4, None, 0, -4]}]}
+                yield {**pl, "arrays": [h2], "feed": [h1, {"off": [3, 3], "shape": [1, 1], "data": [12]}]}
+                yield {**pl, "arrays": [h1, {"off": [1, 1], "shape": [0, 2], "data": []}, h2]}
+                yield {**pl, "arrays": [{"off": [0, 1], "shape": [2, 0], "data": []}, h1]}
+                yield {**pl, "arrays": [h1, {"off": [7, 7], "shape": [0, 0], "data": []}]}
+                yield {**pl, "fill": "-0", "arrays": [h1, {**h2, "off": [3, 3]}]}
         # value classes: a blank (all-zero, also -0.0) tile beside a signal tile and a tile with some zeros; an image and
         # its negative; an image that equals the fill; zeros with NaNs; one zero pixel alone
         sig = {"off": [0, 0], "shape": [2, 2], "data": [4, 8, 12, 16]}
@@ -522,6 +966,28 @@ class C11(Prop):
                 {"off": [-5, 9], "shape": [16, 64], "data": [None if i % 5 == 0 else 0 if i % 3 == 0 else i % 13 for i in range(16 * 64)]}]}
             yield {"kind": "plain", "ndim": 1, "mode": mode, "fill": 40, "arrays": [
                 {"off": [i % 9], "shape": [3], "data": [i - 20, None if i % 4 == 0 else 0, 20 - i]} for i in range(40)]}
+        # structured: three inputs whose field sets overlap pairwise (each lacks one name of the union), in every order of
+        # the inputs and with the names in both orders inside an input; a name only the first / middle / last input has
+        fs = lambda nm, data: {"name": nm, "dtype": "f8", "data": data}
+        s1 = {"off": [0, 0], "shape": [1, 2], "fields": [fs("A", [4, None]), fs("B", [8, 12])]}
+        s2 = {"off": [0, 1], "shape": [1, 2], "fields": [fs("C", [None, 20]), fs("B", [0, -4])]}
+        s3 = {"off": [-1, 1], "shape": [2, 1], "fields": [fs("C", [16, 4]), fs("A", [None, 28])]}
+        only = lambda nm, off: {"off": off, "shape": [1, 1], "fields": [fs(nm, [36])]}
+        for i, perm in enumerate(itertools.permutations([s1, s2, s3])):
+            for mode in ("replace", "mean", "sum"):
+                fill = (None, 0, 40)[(i + len(mode)) % 3]
+                st = {"kind": "structured", "ndim": 2, "mode": mode, "fill": fill, "meta": {"t": [4, -6]}}
+                yield {**st, "arrays": list(perm)}
+                yield {**st, "arrays": [{**a, "fields": a["fields"][::-1]} for a in perm][:2 + i % 2]}
+        for mode in ("replace", "mean", "sum"):
+            st = {"kind": "structured", "ndim": 2, "mode": mode, "fill": None, "meta": {"t": [-2, 3]}}
+            yield {**st, "arrays": [only("Z", [0, 0]), s1, s2]}
+            yield {**st, "arrays": [s1, only("Z", [0, 1]), s2]}
+            yield {**st, "arrays": [s1, s2, only("Z", [0, 2])], "fill": 40}
+            yield {**st, "arrays": [s1], "fill": 0}
+            yield {"kind": "structured", "ndim": 2, "mode": mode, "fill": 40, "arrays": [s1, {**s2, "layout": "strided"}, s3, s1],
+                   "share_objects": True,
+                   "then": [{"edits": [[0, "A", 1, 12], [1, "B", 0, None]]}, {"edits": [[2, "C", 1, None]], "mode": "sum", "fill": None}]}
         # structured: the same name with two dtypes; integer and float32 fields, first array with / without the field
         fa = lambda dt, data: {"name": "A", "dtype": dt, "data": data}
         fb = lambda dt, data: {"name": "B", "dtype": dt, "data": data}
@@ -539,64 +1005,122 @@ class C11(Prop):
                                         {**nxt, "fields": [fb("f4", [1, 8]), fa("f8", [1, 2])]}]}
 
     # ------------------------------------------------------------------ evaluation
-    def run_plain(self, register, case, arrs_desc, fill, mode, offs_kind=None, layouts=True, repeat=False):
-        """one call of overlap_arrays (two on the same objects with `repeat`); returns (result dict, inputs_unchanged,
-        second result equals the first | None, some object occurs twice in the list)"""
-        ndim = case["ndim"]
-        pairs = build_objects(arrs_desc, lambda a: lay_out(to_np(a, ndim), a.get("layout", "c") if layouts else "c"),
+    # ------------------------------------------------------------------ plain merges
+    def plain_args(self, case, descs, fillq, mode, kinds, layouts=True, extra_first=None):
+        """the argument objects of one call of overlap_arrays on the image descriptions `descs`; `kinds`: use the case's
+        container / fill / mode kinds; `extra_first`: an ndarray (an earlier result) handed in as the first image"""
+        pairs = build_objects(descs[1:] if extra_first is not None else descs,
+                              lambda a: lay_out(to_np(a), a.get("layout", "c") if layouts else "c"),
                               case.get("share_objects", False))
-        arrays = [p[0] for p in pairs]
-        offsets = make_offsets({"arrays": arrs_desc, "offs_kind": offs_kind or "tuple"})
-        before = [b.tobytes() for _, b in pairs]
-        shapes = [(a.shape, a.strides, a.dtype.str) for a in arrays]
-        offs_before = [[int(v) for v in o] for o in offsets]
+        if extra_first is not None:
+            pairs = [(extra_first, extra_first)] + pairs
+        sub = {"arrays": descs, "offs_kind": case.get("offs_kind", "tuple") if kinds else "tuple"}
+        offsets, okind = make_offsets(sub)
+        fcase = {"fill": fillq, "fill_kind": case.get("fill_kind", "float") if kinds else "float"}
+        fobj, fkind = make_fill(fcase)
+        mobj = np.str_(mode) if kinds and case.get("mode_kind") == "npstr" else mode
+        args = Args(pairs, offsets, fobj, mobj, case.get("arrs_kind", "list") if kinds else "list")
+        args.kinds = {"offsets": okind, "fill": fkind, "arrays": type(args.arrays).__name__, "mode": type(mobj).__name__}
+        return args
 
-        def call():
-            try:
-                res = register.overlap_arrays(arrays, offsets, fill=fill, mode=mode)
-                return {"shape": list(res.shape), "data": [fhex(v) for v in res.ravel()]}
-            except Exception as e:  # the quantified inputs never raise
-                return {"raises": type(e).__name__, "msg": str(e)[:200]}
+    @staticmethod
+    def call_plain(register, args):
+        """(canonical result, the returned ndarray | None)"""
+        import warnings
 
-        def same():
-            return (all(b.tobytes() == x for (_, b), x in zip(pairs, before))
-                    and shapes == [(a.shape, a.strides, a.dtype.str) for a in arrays]
-                    and [[int(v) for v in o] for o in offsets] == offs_before and len(offsets) == len(arrs_desc))
+        try:
+            with warnings.catch_warnings():
+                warnings.simplefilter("ignore", RuntimeWarning)  # NaN / infinity cast into an integer canvas (pixel not judged)
+                res = register.overlap_arrays(args.arrays, args.offsets, fill=args.fill, mode=args.mode)
+            dt = res.dtype.str.lstrip("<=|>")
+            return {"dtype": dt, "shape": list(res.shape), "data": [fhex(v) for v in res.ravel()]}, res
+        except Exception as e:  # the quantified inputs never raise
+            return {"raises": exc_class(e), "msg": str(e)[:200]}, None
 
-        out = call()
-        unchanged = same()
-        again = None
-        if repeat:
-            again = call() == out
-            unchanged = unchanged and same()
-        return out, unchanged, again, len({id(a) for a in arrays}) < len(arrays)
+    def judge_plain(self, ctx, descs, mode, fillq, ndim, got, feats):
+        """one call against the Lean model: returns (impl, model, spec) made comparable, or None when the model raises
+        (an integer or boolean canvas in mean mode / with a NaN or infinite fill: not judged).  A pixel is judged where
+        the hypothesis of theorem pixel_specD holds and the demanded value is representable in the canvas dtype; the other
+        pixels are replaced by "unjudged" on all three sides (a difference from the model there is recorded only)."""
+        rep = ctx.driver.call("c11.overlapD", mode=mode, fill=enc_v(fillq), ndim=ndim,
+                              arrays=[{"off": a["off"], "shape": a["shape"], "dtype": dclass(a.get("dtype", "f8")),
+                                       "data": [enc_v(v) for v in a["data"]]} for a in descs])
+        if "raises" in rep:
+            feats.add("dtype:" + rep["dtype"] + "-canvas-raises-" + rep["raises"] + "(not compared)")
+            return None
+        dt0 = descs[0].get("dtype", "f8")
+        # rounding of a non-dyadic mean follows the floating-point dtype the implementation returned
+        rdt = got["dtype"] if "dtype" in got and got["dtype"] in ("f8", "f4", "f2") else dt0
+        model = [ptok(v, rdt) for v in rep["model"]]
+        spec = [ptok(v, rdt) for v in rep["spec"]]
+        exact = [ptok(v, rdt) for v in rep["exact"]]
+        infinite = any(isinstance(v, str) for a in descs for v in a["data"]) or isinstance(fillq, str) and "inf" in fillq
+        whole = rep["dtype"] != "i8" or not infinite  # arithmetic on an undefined integer pixel is not modelled
+        lenient = INF_CANCEL_IN_SCOPE if rep["dtype"] in ("f8", "f4") else LOSSY_INT_SUM_IN_SCOPE
+        judged = [whole and (h or lenient) and sp == ex and sp != "undef" for h, sp, ex in zip(rep["hyp"], spec, exact)]
+        if not all(rep["hyp"]):
+            feats.add("hyp:inf-meets-neg-inf(recorded only)" if rep["dtype"] in ("f8", "f4") else
+                      "hyp:lossy-sum-in-" + rep["dtype"] + "-canvas(recorded only)")
+        if any(h and sp != ex for h, sp, ex in zip(rep["hyp"], spec, exact)):
+            feats.add("dtype:value-not-representable-in-canvas(recorded only)")
+        if not whole:
+            feats.add("dtype:infinity-into-integer-canvas(recorded only)")
+        impl = {k: v for k, v in got.items() if k not in ("msg", "dtype")}
+        if "data" in impl and impl.get("shape") == rep["shape"] and len(impl["data"]) == len(model):
+            if whole and any(not j and m != "undef" and x != m for j, x, m in zip(judged, impl["data"], model)):
+                feats.add("unjudged-pixel-differs-from-model(recorded only)")
+            impl["data"] = [x if j else "unjudged" for j, x in zip(judged, impl["data"])]
+        mask = lambda data: [x if j else "unjudged" for j, x in zip(judged, data)]
+        if all(judged):
+            feats.add("all-pixels-judged")
+        return impl, {"shape": rep["shape"], "data": mask(model)}, {"shape": rep["shape"], "data": mask(spec)}, judged
 
-    def metamorphic(self, register, case, base, fill):
-        """implementation against implementation; every entry must come out True"""
-        arrs, mode, t = case["arrays"], case["mode"], case["meta"]["t"]
+    def metamorphic(self, register, case, descs, mode, fillq, expect, judged):
+        """the same merge with a common translation added to every offset, with every permutation of the inputs that keeps
+        the first image's dtype (mean / sum), judged against the Lean specification of the ORIGINAL call (theorems
+        overlapD_translation_invariant, overlapD_perm_invariant); replace: the last-writer relation of theorem
+        overlap_replace_last_writer on the implementation's results.  Every entry must come out True."""
+        t = case["meta"]["t"]
         res = {}
-        moved = [{**a, "off": [o + d for o, d in zip(a["off"], t)]} for a in arrs]
-        res["translation"] = self.run_plain(register, case, moved, fill, mode, layouts=False)[0] == base
-        if mode != "replace" and len(arrs) <= 4:
-            res["permutations"] = all(self.run_plain(register, case, list(p), fill, mode, layouts=False)[0] == base
-                                      for p in itertools.permutations(arrs))
-        if mode == "replace" and "shape" in base:
-            last = arrs[-1]
+        expect = {k: expect[k] for k in ("shape", "data") if k in expect}
+
+        def run(ds):
+            got, raw = self.call_plain(register, self.plain_args(case, ds, fillq, mode, kinds=False, layouts=False))
+            out = {k: v for k, v in got.items() if k not in ("msg", "dtype")}
+            if "data" in out and len(out["data"]) == len(judged):
+                out["data"] = [x if j else "unjudged" for j, x in zip(judged, out["data"])]
+            return out, raw
+
+        moved = [{**a, "off": [o + d for o, d in zip(a["off"], t)]} for a in descs]
+        if not self.outside({**case, "arrays": moved}):  # the translated call is itself inside the quantifier
+            res["translation"] = run(moved)[0] == expect
+        if mode != "replace" and len(descs) <= 4:
+            dt0 = descs[0].get("dtype", "f8")
+            res["permutations"] = all(run(list(p))[0] == expect for p in itertools.permutations(descs)
+                                      if p[0].get("dtype", "f8") == dt0)
+        last = descs[-1]
+        if mode == "replace" and all(judged) and "shape" in expect and (len(descs) > 1 or dclass(last.get("dtype", "f8")) in ("f8", "f4")):
             blank = {**last, "data": [None] * len(last["data"])}
-            other = self.run_plain(register, case, arrs[:-1] + [blank], fill, mode, layouts=False)[0]
-            ok = other.get("shape") == base["shape"]
+            if dclass(blank.get("dtype", "f8")) not in ("f8", "f4"):
+                blank["dtype"] = "f8"  # an integer image cannot be blank; the dtype of a later image does not matter
+            base, raw_b = run(descs)
+            other, raw_o = run(descs[:-1] + [blank])
+            ok = raw_b is not None and raw_o is not None and raw_b.shape == raw_o.shape and raw_b.dtype == raw_o.dtype
             if ok:
-                lo = [min(a["off"][k] for a in arrs) for k in range(case["ndim"])]
-                exp = np.array(other["data"], dtype=object).reshape(base["shape"])
+                lo = [min(a["off"][k] for a in descs) for k in range(case["ndim"])]
                 sl = tuple(slice(o - m, o - m + s) for o, m, s in zip(last["off"], lo, last["shape"]))
-                vals = np.array([None if v is None else fhex(v / 4) for v in last["data"]], dtype=object).reshape(last["shape"])
+                vals = to_np({**last, "layout": "c"})
+                keep = ~np.isnan(vals) if vals.dtype.kind == "f" else np.ones(vals.shape, dtype=bool)
+                exp = raw_o.copy()
                 sub = exp[sl]
-                mask = np.array([v is not None for v in last["data"]]).reshape(last["shape"])
-                if sub.shape != mask.shape:  # the result is not the bounding box (reported by the main leg as well)
+                if sub.shape != vals.shape:  # the result is not the bounding box (reported by the main leg as well)
                     ok = False
                 else:
-                    sub[mask] = vals[mask]
-                    ok = list(exp.ravel()) == base["data"]
+                    import warnings
+                    with warnings.catch_warnings():
+                        warnings.simplefilter("ignore", RuntimeWarning)
+                        sub[keep] = vals[keep]
+                    ok = [fhex(v) for v in exp.ravel()] == [fhex(v) for v in raw_b.ravel()]
             res["last_writer"] = ok
         return res
 
@@ -614,71 +1138,251 @@ class C11(Prop):
             return outcome({"excluded": "canvas too large"}, None, None, spec_ok=True, model_ok=True, undetermined=True,
                            hyp=False, features=["excluded:canvas-too-large"])
         ndim, mode = case["ndim"], case["mode"]
-        fill = math.nan if case["fill"] is None else case["fill"] / 4
-        dfill = None if case["fill"] is None else core.rat(Fraction(case["fill"], 4))
-        offsets = [tuple(a["off"]) for a in case["arrays"]]
-        feats = {f"ndim{ndim}", f"mode:{mode}", "fill:" + ("nan" if case["fill"] is None else "zero" if case["fill"] == 0 else "finite"),
+        fq = case["fill"]
+        if isinstance(fq, str) and "inf" in fq:  # outside the quantifier (fill values NaN, 0 and finite numbers)
+            return outcome({"excluded": "infinite fill"}, None, None, spec_ok=True, model_ok=True, undetermined=True,
+                           hyp=False, features=["excluded:infinite-fill"])
+        fill = fill_value(fq)
+        dfill = None if fq is None else core.rat(Fraction(0 if fq == "-0" else fq, 4))
+        feats = {f"ndim{ndim}", f"mode:{mode}", "fill:" + ("nan" if fq is None else "neg-zero" if fq == "-0" else "zero" if fq == 0 else "finite"),
                  f"n{len(case['arrays'])}", case["kind"]}
         for a in case["arrays"]:
             if a.get("layout", "c") != "c":
                 feats.add("layout:" + a["layout"])
-        if case.get("offs_kind"):
-            feats.add("offsets:" + case["offs_kind"])
         if case["kind"] == "plain":
-            if not exact_ok([v for a in case["arrays"] for v in a["data"]]):
-                return outcome({"excluded": "sums not exact"}, None, None, spec_ok=True, model_ok=True, undetermined=True,
-                               hyp=False, features=["excluded:inexact-sums"])
-            arrays = [to_np(a, ndim) for a in case["arrays"]]
-            impl, unchanged, again, shared = self.run_plain(register, case, case["arrays"], fill, mode, case.get("offs_kind"),
-                                                            repeat=bool(case.get("repeat")))
-            base = dict(impl)
-            impl["inputs_unchanged"] = unchanged
-            if again is not None:
-                impl["second_call_same"] = again
-                feats.add("calls:second-call-on-same-objects")
-            if shared:
-                feats.add("alias:same-object-twice")
-            rep = ctx.driver.call("c11.overlap", mode=mode, fill=dfill, ndim=ndim,
-                                  arrays=[{"off": a["off"], "shape": a["shape"], "data": enc_data(a["data"])} for a in case["arrays"]])
-            model = {"shape": rep["shape"], "data": [qhex(v) for v in rep["model"]], "inputs_unchanged": True}
-            spec = {"shape": rep["shape"], "data": [qhex(v) for v in rep["spec"]], "inputs_unchanged": True}
-            if again is not None:
-                model["second_call_same"] = spec["second_call_same"] = True
-            if case.get("meta"):
-                impl["meta"] = self.metamorphic(register, case, base, fill)
-                model["meta"] = spec["meta"] = {k: True for k in impl["meta"]}
-                feats |= {"meta:" + k for k in impl["meta"]}
-            # feature classification from the driver's own per-pixel contributions is not available; use numpy counts
-            cover = np.zeros(rep["shape"], dtype=int)
-            cover_any = np.zeros(rep["shape"], dtype=int)
-            mo = np.min(np.array(offsets), axis=0)
-            for a, arr in zip(case["arrays"], arrays):
-                sl = tuple(slice(o - m, o - m + s) for o, m, s in zip(a["off"], mo, a["shape"]))
-                cover[sl] += ~np.isnan(arr)
-                cover_any[sl] += 1
-            if (cover >= 2).any():
-                feats.add("overlap>=2")
-            if ((cover == 0) & (cover_any > 0)).any():
-                feats.add("nan-only-pixel")
-            if (cover_any == 0).any():
-                feats.add("uncovered-pixel")
-            if any(min(a["off"]) < 0 for a in case["arrays"]):
-                feats.add("negative-offset")
-            if any(all(v is None for v in a["data"]) for a in case["arrays"]):
-                feats.add("whole-nan-array")
-            if any(abs(o) >= 2 ** 53 for a in case["arrays"] for o in a["off"]):
-                feats.add("offset>=2^53")
-            if len(case["arrays"]) > 255:
-                feats.add("contributions>255" if len(case["arrays"]) < 60000 else "contributions>=65535")
-            feats |= value_feats(case["arrays"], lo, [h - l for l, h in zip(lo, hi)], case["fill"], mode)
-            feats |= geom_feats(case["arrays"])
-            return outcome(impl, model, spec, features=feats if NONTRIVIAL & feats else [])
-        return self.eval_structured(register, case, ctx, fill, dfill, feats)
+            return self.eval_plain(register, case, ctx, feats)
+        return self.eval_structured(register, case, ctx, feats)
 
-    def eval_structured(self, register, case, ctx, fill, dfill, feats):
+    def eval_plain(self, register, case, ctx, feats):
+        ndim = case["ndim"]
+        fq0 = 0 if case["fill"] == "-0" else case["fill"]
+        descs = [{**a, "data": list(a["data"])} for a in case["arrays"]]
+        steps = [{"mode": case["mode"], "fill": case["fill"], "edits": []}] + list(case.get("then", []))
+        # exactness of every call of the history is decided before anything is run
+        probe = [{**a, "data": list(a["data"])} for a in descs]
+        for st in steps:
+            for i, k, v in st.get("edits", []):
+                if i < len(probe) and k < len(probe[i]["data"]):
+                    probe[i]["data"][k] = v
+            why = plain_inexact(probe, 0 if st.get("fill", case["fill"]) == "-0" else st.get("fill", case["fill"]))
+            if why:
+                return outcome({"excluded": why}, None, None, spec_ok=True, model_ok=True, undetermined=True,
+                               hyp=False, features=["excluded:inexact-sums"])
+        args = self.plain_args(case, descs, case["fill"], case["mode"], kinds=True)
+        feats |= args_feats(args)
+        if args.shared():
+            feats.add("alias:same-object-twice")
+        # list positions that hold one object are edited together
+        same = {}
+        for i, (v, _) in enumerate(args.pairs):
+            same.setdefault(id(v), []).append(i)
+        impl, model, spec = {"calls": []}, {"calls": []}, {"calls": []}
+        kept, unchanged, aliased, not_judged = [], True, False, False
+        first_raw, first_judged, first_spec = None, None, None
+        for n, st in enumerate(steps):
+            mode, fq = st.get("mode", case["mode"]), st.get("fill", case["fill"])
+            fq_m = 0 if fq == "-0" else fq
+            if n > 0:  # the caller edits the same image objects in place between the calls
+                feats.add("history:edit-then-merge-again")
+                for i, k, v in st.get("edits", []):
+                    if i >= len(descs) or k >= len(descs[i]["data"]):
+                        continue
+                    view = args.pairs[i][0]
+                    idx = np.unravel_index(k, view.shape)
+                    ro = not view.flags.writeable
+                    if ro:
+                        view.flags.writeable = True
+                    view[idx] = np.array(fval(v, descs[i].get("negzero", False))).astype(view.dtype)
+                    if ro:
+                        view.flags.writeable = False
+                    for j in same[id(view)]:
+                        descs[j]["data"][k] = v
+                fobj, _ = make_fill({"fill": fq, "fill_kind": case.get("fill_kind", "float")})
+                args.fill, args.mode = fobj, mode
+                args.before = args.picture()
+            got, raw = self.call_plain(register, args)
+            unchanged = unchanged and args.unchanged()
+            if st.get("repeat", case.get("repeat") if n == 0 else False):
+                again, raw2 = self.call_plain(register, args)
+                got["second_call_same"] = {k: v for k, v in again.items() if k != "msg"} == {k: v for k, v in got.items() if k != "msg"}
+                unchanged = unchanged and args.unchanged()
+                feats.add("calls:second-call-on-same-objects")
+                if raw2 is not None:
+                    kept.append((raw2, raw2.tobytes()))
+            if raw is not None:
+                aliased = aliased or any(np.shares_memory(raw, b) for _, b in args.pairs)
+                kept.append((raw, raw.tobytes()))
+            j = self.judge_plain(ctx, descs, mode, fq_m, ndim, got, feats)
+            if j is None:
+                not_judged = True
+                break
+            gi, gm, gs, judged = j
+            if "second_call_same" in gi:
+                gm["second_call_same"] = gs["second_call_same"] = True
+            impl["calls"].append(gi)
+            model["calls"].append(gm)
+            spec["calls"].append(gs)
+            if n == 0:
+                first_raw, first_judged, first_spec = raw, judged, gs
+        if not_judged:
+            return outcome({"result": "raises"}, None, None, spec_ok=True, model_ok=True, undetermined=True, hyp=False,
+                           features=feats)
+        # results handed out earlier are not touched by later calls or by edits of the inputs
+        impl["earlier_results_kept"] = all(r.tobytes() == b for r, b in kept)
+        # the result is the caller's: writing into it does not reach an input
+        if first_raw is not None and first_raw.flags.writeable and first_raw.size:
+            scribble(first_raw)
+            args.before_edit_ok = args.unchanged()
+            impl["inputs_unchanged_by_editing_the_result"] = args.before_edit_ok and not aliased
+            model["inputs_unchanged_by_editing_the_result"] = spec["inputs_unchanged_by_editing_the_result"] = True
+        impl["inputs_unchanged"] = unchanged
+        for d in (model, spec):
+            d["inputs_unchanged"] = True
+            d["earlier_results_kept"] = True
+        # the first result fed into a second merge with further images (tiling)
+        if case.get("feed") and first_raw is not None and all(first_judged):
+            self.feed(register, case, ctx, descs0=[{**a, "data": list(a["data"])} for a in case["arrays"]],
+                      impl=impl, model=model, spec=spec, feats=feats)
+        if case.get("meta") and len(steps) == 1 and "data" in spec["calls"][0]:
+            impl["meta"] = self.metamorphic(register, case, case["arrays"], case["mode"], case["fill"], spec["calls"][0], first_judged)
+            model["meta"] = spec["meta"] = {k: True for k in impl["meta"]}
+            feats |= {"meta:" + k for k in impl["meta"]}
+        feats |= self.plain_feats(case, fq0)
+        outside = self.outside(case)
+        if outside:  # no clause of the property speaks about this call: a difference from the model is recorded, not judged
+            if core.canon(impl) != core.canon(model):
+                feats.add("outside:differs-from-model(recorded only)")
+            return outcome(impl, model, spec, spec_ok=True, model_ok=True, undetermined=True, hyp=False,
+                           features=feats | {"outside:" + o + "(recorded only)" for o in outside})
+        return outcome(impl, model, spec, features=feats if NONTRIVIAL & feats else [])
+
+    @staticmethod
+    def outside(case):
+        """reasons why the call lies outside the property's quantifier or in a choice its text leaves open"""
+        out = []
+        arrs, ndim = case["arrays"], case["ndim"]
+        if ndim > 3:
+            out.append("more-than-3-dimensions")
+        if any(not -2 ** 63 <= v < 2 ** 63 for a in arrs for o, s in zip(a["off"], a["shape"]) for v in (o, o + s)):
+            out.append("offset-beyond-int64")
+        full = [a for a in arrs if 0 not in a["shape"]]
+        if len(full) < len(arrs):
+            # is an image without pixels part of "their bounding box"?  judged only where it makes no difference
+            box = lambda l: [(min(a["off"][k] for a in l), max(a["off"][k] + a["shape"][k] for a in l)) for k in range(ndim)]
+            if not full or box(full) != box(arrs):
+                out.append("empty-image-decides-the-box")
+        return out
+
+    def feed(self, register, case, ctx, descs0, impl, model, spec, feats):
+        """tiling: the images are merged once more (fill NaN), that result is handed in as the first image of a second
+        merge together with the images `case["feed"]`; judged (a) against the Lean specification with the first result's
+        values as an input and (b), in replace and sum mode, against the specification of the one merge of all images
+        (theorem tiling)."""
+        ndim, mode = case["ndim"], case["mode"]
+        a1 = self.plain_args(case, descs0, None, mode, kinds=False)
+        got1, raw1 = self.call_plain(register, a1)
+        if raw1 is None or raw1.dtype != np.float64:
+            return
+        vals = []
+        for v in raw1.ravel():
+            q = None if math.isnan(v) else "inf" if v == math.inf else "-inf" if v == -math.inf else Fraction(float(v)) * 4
+            if isinstance(q, Fraction):
+                if q.denominator != 1:
+                    feats.add("feed:skipped(first result not dyadic)")
+                    return
+                q = int(q)
+            vals.append(q)
+        lo = [min(a["off"][k] for a in descs0) for k in range(ndim)]
+        first = {"off": lo, "shape": list(raw1.shape), "data": vals, "dtype": "f8"}
+        more = [{**a, "data": list(a["data"])} for a in case["feed"]]
+        descs2 = [first] + more
+        if plain_inexact(descs2, 0 if case["fill"] == "-0" else case["fill"]) or plain_inexact(descs0 + more, case["fill"] if case["fill"] != "-0" else 0):
+            feats.add("feed:skipped(inexact)")
+            return
+        keep = raw1.tobytes()
+        a2 = self.plain_args(case, descs2, case["fill"], mode, kinds=False, extra_first=raw1)
+        got2, raw2 = self.call_plain(register, a2)
+        fq = 0 if case["fill"] == "-0" else case["fill"]
+        f2 = set()
+        j = self.judge_plain(ctx, descs2, mode, fq, ndim, got2, f2)
+        if j is None:
+            return
+        gi, gm, gs, judged = j
+        gi["inputs_unchanged"] = a2.unchanged() and raw1.tobytes() == keep
+        gm["inputs_unchanged"] = gs["inputs_unchanged"] = True
+        feats.add("history:result-fed-into-next-merge")
+        if mode != "mean" and all(judged) and all(a.get("dtype", "f8") == "f8" for a in descs0 + more):
+            j1 = self.judge_plain(ctx, descs0 + more, mode, fq, ndim, got2, set())
+            if j1 is not None and all(j1[3]):
+                gi["equals_one_merge_of_all"] = gi.get("data") == j1[2]["data"] and gi.get("shape") == j1[2]["shape"]
+                gm["equals_one_merge_of_all"] = gs["equals_one_merge_of_all"] = True
+                feats.add("history:tiling-equals-one-merge")
+        impl["fed"], model["fed"], spec["fed"] = gi, gm, gs
+
+    def plain_feats(self, case, fq0):
+        """feature classes of a plain case (from the case, not from the generator's labels)"""
+        feats = set()
+        arrs, ndim, mode = case["arrays"], case["ndim"], case["mode"]
+        lo = [min(a["off"][k] for a in arrs) for k in range(ndim)]
+        hi = [max(a["off"][k] + a["shape"][k] for a in arrs) for k in range(ndim)]
+        shape = [h - l for l, h in zip(lo, hi)]
+        cover = np.zeros(shape, dtype=int)
+        cover_any = np.zeros(shape, dtype=int)
+        pinf = np.zeros(shape, dtype=bool)
+        ninf = np.zeros(shape, dtype=bool)
+        for a in arrs:
+            sl = tuple(slice(o - m, o - m + s) for o, m, s in zip(a["off"], lo, a["shape"]))
+            d = np.array([v is not None for v in a["data"]], dtype=bool).reshape(a["shape"])
+            cover[sl] += d
+            cover_any[sl] += 1
+            pinf[sl] |= np.array([v == "inf" for v in a["data"]], dtype=bool).reshape(a["shape"])
+            ninf[sl] |= np.array([v == "-inf" for v in a["data"]], dtype=bool).reshape(a["shape"])
+        if (cover >= 2).any():
+            feats.add("overlap>=2")
+        if ((cover == 0) & (cover_any > 0)).any():
+            feats.add("nan-only-pixel")
+        if (cover_any == 0).any():
+            feats.add("uncovered-pixel")
+        if any(min(a["off"]) < 0 for a in arrs):
+            feats.add("negative-offset")
+        if any(a["data"] and all(v is None for v in a["data"]) for a in arrs):
+            feats.add("whole-nan-array")
+        if any(abs(o) >= 2 ** 53 for a in arrs for o in a["off"]):
+            feats.add("offset>=2^53")
+        if len(arrs) > 255:
+            feats.add("contributions>255" if len(arrs) < 60000 else "contributions>=65535")
+        if pinf.any() or ninf.any():
+            feats.add("value:infinity")
+            if (pinf & ninf).any():
+                feats.add("value:inf-and-neg-inf-on-one-pixel")
+        if any(0 in a["shape"] for a in arrs):
+            feats.add("size:zero-length-axis")
+        dts = [a.get("dtype", "f8") for a in arrs]
+        if set(dts) != {"f8"}:
+            feats.add("dtype:first=" + dts[0])
+            feats |= {"dtype:has-" + d for d in dts}
+            if len({dclass(d) for d in dts}) > 1:
+                feats.add("dtype:mixed-list")
+            seen_nan_float = False
+            for a in arrs:
+                if dclass(a.get("dtype", "f8")) in ("f8", "f4"):
+                    seen_nan_float = seen_nan_float or any(v is None for v in a["data"])
+                elif seen_nan_float:
+                    feats.add("dtype:integer-or-bool-after-float-with-nan")
+        finite = [{**a, "data": [v if isnum(v) else None for v in a["data"]]} for a in arrs]
+        feats |= value_feats(finite, lo, shape, fq0, mode)
+        feats |= geom_feats(arrs)
+        return feats
+
+    def eval_structured(self, register, case, ctx, feats, variant=False, session=None):
+        """one structured merge against the Lean model (`variant`: a translated / reordered / edited form of a case,
+        evaluated without legs of its own; `session`: the argument objects of an earlier call of the same history, which the
+        caller has edited in place)"""
         import warnings
 
         ndim, mode = case["ndim"], case["mode"]
+        fq = case["fill"]
+        dfill = None if fq is None else core.rat(Fraction(0 if fq == "-0" else fq, 4))
         # exact arithmetic: the values of every field are representable in its dtype and their sums are exact in it
         for a in case["arrays"]:
             for f in a["fields"]:
@@ -706,34 +1410,52 @@ class C11(Prop):
                 arr[f["name"]] = vals  # exact: the values are representable in the field's dtype (checked above)
             return lay_out(arr, a.get("layout", "c"))
 
-        pairs = build_objects(case["arrays"], make, case.get("share_objects", False))
-        arrays = [p[0] for p in pairs]
-        if len({id(a) for a in arrays}) < len(arrays):
+        if session is None:
+            pairs = build_objects(case["arrays"], make, case.get("share_objects", False))
+            offsets, okind = make_offsets(case)
+            fobj, fkind = make_fill(case)
+            mobj = np.str_(mode) if case.get("mode_kind") == "npstr" else mode
+            args = Args(pairs, offsets, fobj, mobj, case.get("arrs_kind", "list"))
+            args.kinds = {"offsets": okind, "fill": fkind, "arrays": type(args.arrays).__name__, "mode": type(mobj).__name__}
+            args.kept = []
+        else:
+            args = session
+            args.fill, args.mode = make_fill(case)[0], (np.str_(mode) if case.get("mode_kind") == "npstr" else mode)
+            args.before = args.picture()
+        feats |= args_feats(args)
+        if args.shared():
             feats.add("alias:same-object-twice")
-        offsets = make_offsets(case)
-        before = [b.tobytes() for _, b in pairs]
-        offs_before = [[int(v) for v in o] for o in offsets]
+
+        kept = args.kept
+        n_before = len(kept)
 
         def call(offs):
             try:
                 with warnings.catch_warnings():
                     warnings.simplefilter("ignore", RuntimeWarning)  # NaN cast to an integer field (pixel not compared)
-                    res = register.overlap_structured_arrays(arrays, offs, fill=fill, mode=mode)
+                    res = register.overlap_structured_arrays(args.arrays, offs, fill=args.fill, mode=args.mode)
+                kept.append([res, res.tobytes()])
                 return {"fields": [{"name": n, "dtype": res.dtype[n].str.lstrip("<=|"), "shape": list(res.shape),
                                     "data": [impl_px(res.dtype[n].str.lstrip("<=|"), v) for v in res[n].ravel()]}
                                    for n in res.dtype.names]}
             except Exception as e:
                 return {"raises": exc_class(e), "msg": str(e)[:200]}
 
-        got = call(offsets)
-        unchanged = (all(b.tobytes() == x for (_, b), x in zip(pairs, before))
-                     and [[int(v) for v in o] for o in offsets] == offs_before)
+        got = call(args.offsets)
+        unchanged = args.unchanged()
         again = None
         if case.get("repeat"):
-            again = call(offsets)
-            unchanged = unchanged and (all(b.tobytes() == x for (_, b), x in zip(pairs, before))
-                                       and [[int(v) for v in o] for o in offsets] == offs_before)
+            again = call(args.offsets)
+            unchanged = unchanged and args.unchanged()
             feats.add("calls:second-call-on-same-objects")
+        # results handed out earlier stay as they were; writing into a result does not reach an input
+        results_ok = all(r.tobytes() == b for r, b in kept)
+        if len(kept) > n_before and kept[n_before][0].size and kept[n_before][0].flags.writeable:
+            mine = kept[n_before]
+            aliased = any(np.shares_memory(mine[0], b) for _, b in args.pairs)
+            scribble(mine[0])
+            mine[1] = mine[0].tobytes()
+            results_ok = results_ok and not aliased and args.unchanged()
         rep = ctx.driver.call("c11.structuredD", mode=mode, fill=dfill, ndim=ndim,
                               arrays=[{"off": a["off"], "shape": a["shape"],
                                        "fields": [{"name": f["name"], "dtype": f.get("dtype", "f8"), "data": enc_data(f["data"])}
@@ -774,6 +1496,26 @@ class C11(Prop):
         dts = {f.get("dtype", "f8") for a in case["arrays"] for f in a["fields"]}
         names = {f["name"] for a in case["arrays"] for f in a["fields"]}
         feats.add("disjoint-fields" if any(set(f["name"] for f in a["fields"]) != names for a in case["arrays"]) else "same-fields")
+        sets = [[f["name"] for f in a["fields"]] for a in case["arrays"]]
+        if len(sets) > 1:
+            if set(sets[0]) != names:
+                feats.add("fields:missing-from-first")
+            if set(sets[-1]) != names:
+                feats.add("fields:missing-from-last")
+            if any(set(x) != names for x in sets[1:-1]):
+                feats.add("fields:missing-from-middle")
+            if any(not set(x) & set(y) for x in sets for y in sets):
+                feats.add("fields:two-inputs-share-no-name")
+            for x in sets:
+                for y in sets:
+                    common = [n for n in x if n in y]
+                    if common != [n for n in y if n in x]:
+                        feats.add("fields:order-differs-between-inputs")
+            first_seen = []
+            for x in sets:
+                first_seen += [n for n in x if n not in first_seen]
+            if first_seen != sorted(first_seen):
+                feats.add("fields:union-not-in-name-order")
         by_name = {}
         for a in case["arrays"]:
             for f in a["fields"]:
@@ -805,21 +1547,74 @@ class C11(Prop):
                                        undetermined=True, hyp=False,
                                        features=feats | {"dtype:clash-handled-differently-from-model(recorded only)"})
         meta_i = meta_s = None
-        if case.get("meta") and "fields" in got:
+        if case.get("meta") and not variant and "fields" in got:
+            # the same merge translated, and with the inputs in every order (<= 4 inputs): each judged against the Lean
+            # specification of that call, per field (theorems structured_translation_invariant / structured_perm_invariant
+            # say the specifications agree)
             t = case["meta"]["t"]
-            moved = [tuple(o + d for o, d in zip(a["off"], t)) for a in case["arrays"]]
-            second = mask(call(moved))
-            meta_i = {"translation": {k: v for k, v in second.items() if k != "msg"} == impl_cmp}
-            meta_s = {"translation": True}
-            feats.add("meta:translation")
-        impl = {"result": impl_cmp, "inputs_unchanged": unchanged, "meta": meta_i}
-        extra = {}
+            base = {k: v for k, v in case.items() if k not in ("meta", "repeat")}
+
+            def judged_ok(c):
+                o = self.eval_structured(register, c, ctx, set(), variant=True)
+                return True if o["undetermined"] else bool(o["spec_ok"] and o["model_ok"])
+
+            moved = {**base, "arrays": [{**a, "off": [o + d for o, d in zip(a["off"], t)]} for a in case["arrays"]]}
+            meta_i = {}
+            if not self.outside(moved):
+                meta_i["translation"] = judged_ok(moved)
+                feats.add("meta:translation")
+            cells = len(names)
+            for l, h in zip(lo, hi):
+                cells *= h - l
+            if len(case["arrays"]) <= 4 and cells <= 30000:
+                meta_i["permutations"] = all(judged_ok({**base, "arrays": list(p)}) for p in itertools.permutations(case["arrays"]))
+                feats.add("meta:permutations")
+            meta_s = {k: True for k in meta_i}
+        if case.get("then") and not variant and "fields" in got:
+            # the caller edits field values of the same image objects in place and merges again (other mode / fill)
+            cur = {k: v for k, v in case.items() if k not in ("meta", "repeat", "then")}
+            cur["arrays"] = [{**a, "fields": [{**f, "data": list(f["data"])} for f in a["fields"]]} for a in case["arrays"]]
+            same = {}
+            for i, (v, _) in enumerate(args.pairs):
+                same.setdefault(id(v), []).append(i)
+            hist = []
+            for st in case["then"]:
+                for i, nm, k, v in st.get("edits", []):
+                    if i >= len(cur["arrays"]):
+                        continue
+                    fl = [f for f in cur["arrays"][i]["fields"] if f["name"] == nm]
+                    if not fl or k >= len(fl[0]["data"]):
+                        continue
+                    view = args.pairs[i][0]
+                    ro = not view.flags.writeable
+                    if ro:
+                        view.flags.writeable = True
+                    view[nm][np.unravel_index(k, view.shape)] = fval(v, fl[0].get("negzero", False))
+                    if ro:
+                        view.flags.writeable = False
+                    for j in same[id(view)]:
+                        for f in cur["arrays"][j]["fields"]:
+                            if f["name"] == nm:
+                                f["data"][k] = v
+                cur = {**cur, "mode": st.get("mode", cur["mode"]), "fill": st.get("fill", cur["fill"])}
+                o = self.eval_structured(register, cur, ctx, set(), variant=True, session=args)
+                hist.append(True if o["undetermined"] else bool(o["spec_ok"] and o["model_ok"]))
+            meta_i = {**(meta_i or {}), "history": hist}
+            meta_s = {**(meta_s or {}), "history": [True] * len(hist)}
+            feats.add("history:edit-then-merge-again")
+        outside = self.outside(case)
+        if outside:
+            differs = {"outside:differs-from-model(recorded only)"} if core.canon(impl_cmp) != core.canon(model) else set()
+            return outcome({"result": impl_cmp}, {"result": model}, {"result": key(spec)}, spec_ok=True, model_ok=True,
+                           undetermined=True, hyp=False, features=feats | differs | {"outside:" + o + "(recorded only)" for o in outside})
+        impl = {"result": impl_cmp, "inputs_unchanged": unchanged, "results_are_the_callers": results_ok, "meta": meta_i}
+        extra = {"results_are_the_callers": True}
         if again is not None:  # the second call on the same objects returned the same
             impl["second_call_same"] = again
-            extra = {"second_call_same": True}
-        spec_ok = (unchanged and again is not False and (meta_i == meta_s)
+            extra["second_call_same"] = True
+        spec_ok = (unchanged and results_ok and again is not False and (meta_i == meta_s)
                    and (not hyp or core.canon(key(impl_cmp)) == core.canon(key(spec))))
-        model_ok = unchanged and again is not False and core.canon(impl_cmp) == core.canon(model)
+        model_ok = unchanged and results_ok and again is not False and core.canon(impl_cmp) == core.canon(model)
         return outcome(impl, {"result": model, "inputs_unchanged": True, "meta": meta_s, **extra},
                        {"result": key(spec), "inputs_unchanged": True, "meta": meta_s, **extra},
                        spec_ok=spec_ok, model_ok=model_ok, hyp=hyp, features=feats)
@@ -848,13 +1643,26 @@ class C11(Prop):
         if len(arrs) > 1:
             for i in range(len(arrs)):
                 yield {**case, "arrays": arrs[:i] + arrs[i + 1:]}
-        for k in ("meta", "repeat", "share_objects", "offs_kind"):  # legs and options the failure does not need
+        for k in ("meta", "repeat", "share_objects", "offs_kind", "arrs_kind", "fill_kind", "mode_kind"):  # legs and options the failure does not need
             if k in case:
                 yield {k2: v for k2, v in case.items() if k2 != k}
         for i, a in enumerate(arrs):
-            for k in ("layout", "negzero"):
+            for k in ("layout", "negzero", "dtype"):
                 if k in a:
                     yield {**case, "arrays": arrs[:i] + [{k2: v for k2, v in a.items() if k2 != k}] + arrs[i + 1:]}
+        # histories: fewer calls, fewer edits; the second merge of a tiling; infinite values made finite
+        if case.get("then"):
+            then = case["then"]
+            yield {**case, "then": then[:-1]} if len(then) > 1 else {k: v for k, v in case.items() if k != "then"}
+            for j, st in enumerate(then):
+                for e in range(len(st.get("edits", []))):
+                    yield {**case, "then": then[:j] + [{**st, "edits": st["edits"][:e] + st["edits"][e + 1:]}] + then[j + 1:]}
+        if case.get("feed"):
+            yield {k: v for k, v in case.items() if k != "feed"}
+            if len(case["feed"]) > 1:
+                yield {**case, "feed": case["feed"][:-1]}
+        if case["kind"] == "plain" and any(isinstance(v, str) for a in arrs for v in a["data"]):
+            yield {**case, "arrays": [{**a, "data": [4 if v == "inf" else -4 if v == "-inf" else v for v in a["data"]]} for a in arrs]}
         if case["kind"] == "plain":
             for i, a in enumerate(arrs):
                 for ax in range(case["ndim"]):
